@@ -313,7 +313,7 @@ def run_shard(spec, res):
                     res.count('allowed_target:opened')
                 else:
                     res.count('allowed_target:not_opened:' + spell_name)
-                if res.evaluations % 400 == 0:
+                if len(res.samples) < 2:
                     res.sample(dict(cell, outcome=outcome, touched=sorted(touched), markers=sorted(markers)))
 
 
